@@ -191,6 +191,9 @@ func (t *translator) expr(e ast.Expr) string {
 		if id, ok := x.Fun.(*ast.Ident); ok && id.Name == "len" && len(x.Args) == 1 {
 			return "(" + t.expr(x.Args[0]) + ").length"
 		}
+		if id, ok := x.Fun.(*ast.Ident); ok && id.Name == "max" && len(x.Args) == 2 {
+			return "(max " + t.expr(x.Args[0]) + " " + t.expr(x.Args[1]) + ")"
+		}
 		if id, ok := x.Fun.(*ast.Ident); ok && id.Name == "make" {
 			return "[]" // an empty slice or map
 		}
@@ -222,6 +225,10 @@ func (t *translator) stmts(list []ast.Stmt, next func() string, cont, brk string
 	event := func(name string) string {
 		if t.spec.evVar == "" {
 			return t.fail("effect %s without an event variable", name)
+		}
+		if i := strings.Index(name, "|"); i >= 0 {
+			// an event with an argument: ("name", arg)
+			return "(let " + t.spec.evVar + " := " + t.spec.evVar + " ++ [(" + strconv.Quote(name[:i]) + ", " + name[i+1:] + ")]; " + tail() + ")"
 		}
 		return "(let " + t.spec.evVar + " := " + t.spec.evVar + " ++ [" + strconv.Quote(name) + "]; " + tail() + ")"
 	}
@@ -443,14 +450,18 @@ func (t *translator) stmts(list []ast.Stmt, next func() string, cont, brk string
 			}
 		}
 		if len(x.Rhs) == 1 {
-			if bs, ok := t.spec.binds[goStr(x.Rhs[0])]; ok && x.Tok == token.DEFINE {
+			if bs, ok := t.spec.binds[goStr(x.Rhs[0])]; ok && (x.Tok == token.DEFINE || x.Tok == token.ASSIGN) {
 				// `a, b := call`: the call is an effect, its results are inputs of the generated definition
 				out := tail()
 				for i := len(bs) - 1; i >= 0; i-- {
 					out = "(let " + bs[i][0] + " := " + bs[i][1] + "; " + out + ")"
 				}
 				if ev, ok := t.spec.effects[goStr(x.Rhs[0])]; ok {
-					out = "(let " + t.spec.evVar + " := " + t.spec.evVar + " ++ [" + strconv.Quote(ev) + "]; " + out + ")"
+					if i := strings.Index(ev, "|"); i >= 0 {
+						out = "(let " + t.spec.evVar + " := " + t.spec.evVar + " ++ [(" + strconv.Quote(ev[:i]) + ", " + ev[i+1:] + ")]; " + out + ")"
+					} else {
+						out = "(let " + t.spec.evVar + " := " + t.spec.evVar + " ++ [" + strconv.Quote(ev) + "]; " + out + ")"
+					}
 				}
 				return out
 			}
@@ -1130,6 +1141,62 @@ func genDB(repo, out string) {
 			}
 			sb.WriteString(d4 + "\n")
 		}
+	}
+	// memtable.recover: the loop that merges the leftover wal files into the wal of the new memtable
+	{
+		f5 := findFunc(p, "memtable", "recover")
+		sp := transSpec{
+			leanName: "recoverWals",
+			binders:  "(sort : List Nat → List Nat) (readWal : Nat → Option (List (Nat × Nat))) (walFilesIn : List Nat) (ev : List (String × Nat))",
+			retType:  "Option (Nat × List (String × Nat))",
+			exprMap:  map[string]string{"len(walFiles)": "walFiles.length", "entry.Version": "entry.2", "err != nil": "err"},
+			state:    []string{"walFiles", "maxVersion", "ev"}, stateLn: []string{"walFiles", "maxVersion", "ev"}, evVar: "ev",
+			zero:     map[string]string{"[]string": "walFilesIn", "int64": "0"},
+			effects: map[string]string{"wal.Open(file)": "wal.Open|file", "l.Read()": "wal.Read|file", "mt.skiplist.Set(entry)": "skiplist.Set|entry.1",
+				"mt.wal.Write(entry)": "wal.Write|entry.1", "l.Delete()": "wal.Delete|file"},
+			binds: map[string][][2]string{"wal.Open(file)": {{"l", "()"}, {"err", "false"}},
+				"l.Read()":            {{"entries", "((readWal file).getD [])"}, {"err", "(readWal file).isNone"}},
+				"mt.wal.Write(entry)": {{"err", "false"}}, "l.Delete()": {{"err", "false"}}},
+			wraps: map[string]func(string) string{
+				"slices.Sort(walFiles)": func(tail string) string { return "(let walFiles := sort walFiles; " + tail + ")" },
+			},
+			skipStmt: func(st ast.Stmt) bool {
+				s := goStr(st)
+				if strings.HasPrefix(s, "files, err := os.ReadDir(") || strings.HasPrefix(s, "defer utils.Elapsed(") {
+					return true
+				}
+				if i, ok := st.(*ast.IfStmt); ok && i.Init == nil && goStr(i.Cond) == "err != nil" && strings.Contains(goStr(i.Body), "read dir") {
+					return true // the error check of os.ReadDir
+				}
+				if r, ok := st.(*ast.RangeStmt); ok && goStr(r.X) == "files" {
+					return true // the directory listing is filtered into walFiles: an input of the translated loop
+				}
+				return false
+			},
+			ret:      func(vals []string, st []string) string { return "some (" + vals[0] + ", ev)" },
+			fallOff:  func(st []string) string { return "none" },
+			panicVal: "none",
+			skipCall: func(c *ast.CallExpr) bool {
+				s := goStr(c.Fun)
+				return strings.HasPrefix(s, "vhook.") || s == "mt.mu.Lock" || s == "mt.mu.Unlock" || s == "mt.logger.Infof"
+			},
+		}
+		sp.wraps["mt.logger.Panicf(\"open wal %v failed: %v\", file, err)"] = func(string) string { return "none" }
+		sp.wraps["mt.logger.Panicf(\"read wal %v failed: %v\", file, err)"] = func(string) string { return "none" }
+		sp.wraps["mt.logger.Panicf(\"write wal failed: %v\", err)"] = func(string) string { return "none" }
+		sp.wraps["mt.logger.Panicf(\"delete wal %v failed: %v\", file, err)"] = func(string) string { return "none" }
+		d5 := ""
+		e5 := fmt.Errorf("memtable.recover not found")
+		if f5 != nil {
+			t := &translator{spec: sp}
+			tr := t.stmts(f5.Body.List, func() string { return "none" }, "", "")
+			e5 = t.err
+			d5 = fmt.Sprintf("def %s %s : %s :=\n  let walFiles : List Nat := []\n  let maxVersion : Nat := 0\n  %s\n", sp.leanName, sp.binders, sp.retType, tr)
+		}
+		if e5 != nil {
+			d5 = fmt.Sprintf("/-- UNTRANSLATABLE: %s -/\ndef recoverWals : Unit := ()\n", strings.ReplaceAll(e5.Error(), "-/", "- /"))
+		}
+		sb.WriteString(d5 + "\n")
 	}
 	sb.WriteString("end GenDB\n")
 	if err := os.WriteFile(out, []byte(sb.String()), 0644); err != nil {
